@@ -16,8 +16,22 @@ import (
 	"gosym/sym"
 )
 
-const repoDir = "/repo"
+// repoDir is /repo for every registered check; GOSYM_REPO redirects it to a
+// scratch worktree (tools/evalseed.sh runs seeded changes there, in parallel,
+// without touching /repo), and GOSYM_EVIDENCE_DIR keeps such runs from
+// overwriting the evidence of the unchanged tree.
+var repoDir = envOr("GOSYM_REPO", "/repo")
+var evidenceDir = envOr("GOSYM_EVIDENCE_DIR", "/verif/evidence")
+
 const verifDir = "/verif"
+
+func envOr(k, def string) string {
+	if v := os.Getenv(k); v != "" {
+		return v
+	}
+	return def
+}
+
 const modPath = "github.com/AdguardTeam/golibs"
 
 // buildOverlay maps harness and runtime files into /repo.
